@@ -174,6 +174,7 @@ def defaultVal (t : ATy) (p : FP) : AVal :=
 /-- `reflect.DeepEqual(v, zero)` for a value as `parseField` builds it: everything that was present
 on the wire and is a slice or pointer is non-nil, hence not zero. -/
 def isZero : AVal → Bool
+  | .absent (.int i) => i == 0   -- an absent integer field holds its `default:` value, which need not be zero
   | .absent _ => true
   | .bool b => !b
   | .int i => i == 0
@@ -195,6 +196,7 @@ mutual
 /-- `reflect.DeepEqual(v, zero)` directed by the target type: a `*big.Int` that was present on the wire is a
 non-nil pointer and never equals the zero value, at any depth -/
 def isZeroAt : ATy → AVal → Bool
+  | _, .absent (.int i) => i == 0
   | _, .absent _ => true
   | .bigInt, _ => false
   | .struct _ fs, .struct raw vs => (raw.getD []).isEmpty && allZeroAt fs vs
